@@ -89,9 +89,9 @@ Definition step (cfg : defects) (progs : Z -> list dop) (o : op) (m : mstate) : 
   match o with
   | ONew id pid r hidden lowest rootparent steal =>
     m_set_root m (win_new st id pid r hidden lowest rootparent steal)
-  | OClose id => m_set_root m (win_close st id)
-  | OShow id => m_set_root m (win_show st id)
-  | OHide id => m_set_root m (win_hide st id)
+  | OClose id => m_set_root m (win_close cfg st id)
+  | OShow id => m_set_root m (win_show cfg st id)
+  | OHide id => m_set_root m (win_hide cfg st id)
   | ORestack k id => m_set_root m (win_restack st k id)
   | OGeom id r ex => m_set_root m (geom_exposes st (win_set_geometry st id r) id ex)
   | OMove id t l ex => m_set_root m (geom_exposes st (win_reposition st id t l) id ex)
